@@ -346,6 +346,8 @@ class Client(ClientLike):
         self.send_message(msg)
 
     def _subscription_control(self, msg_list: Iterable[int], ctrl_msg: str):
+        # any iterable is accepted: a generator must not be used up by the membership test
+        msg_list = list(msg_list)
         all_msg = ALL_MESSAGE_TYPES in msg_list
 
         if not all_msg:
